@@ -293,11 +293,59 @@ def run_late(ctx, rng, cands, spec):
         ctx.sig(['late', h64(case)])
 
 
+def run_write_fault(ctx, rng, cands, spec):
+    """fault injection at the output boundary: the stream the live view writes to fails once (a closed pipe, Ctrl-C inside
+    gdb.write).  The message whose line could not be written must still be recorded - per connection and in the
+    all-connections record that `list` searches."""
+    from backends.libwayland_debug_output import parse
+    st = streams.build(rng, cands, k=rng.randint(1, 3), n_each=(10, 40), tagged=True)
+    lines = [e['line'] for e in st['entries']]
+    s = Session()
+    fail_at = rng.randrange(len(lines))
+    orig_show = s.output.show
+    state = {'armed': False, 'fired': 0}
+
+    def show(*msg):
+        if state['armed']:
+            state['armed'] = False
+            state['fired'] += 1
+            raise OSError(32, 'Broken pipe (injected by the harness)')
+        return orig_show(*msg)
+    s.output.show = show
+    parser = parse.Parser(s.output, s.cm)
+    delivered = 0
+    for i, l in enumerate(lines):
+        cid, m = parse.message(l)
+        if i == fail_at and cid in parser.known_connections:
+            state['armed'] = True
+        try:
+            parser.handle_message(cid, m)
+        except OSError:
+            pass
+        state['armed'] = False
+        delivered += 1
+    ctx.ev()
+    ctx.count('write_fault_sessions')
+    ctx.count('write_faults_injected', state['fired'])
+    case = {'lines': lines, 'filter': None, 'hooks': {}, 'write_fault_at': fail_at}
+    per = sum(len(c.messages()) for c in s.cm.connections())
+    n0 = len(s.events)
+    s.command('list *')
+    listed = [p for k2, p in s.events[n0:] if k2 == 'out' and outline.parse_line(p)['kind'] == 'msg']
+    if per != delivered or len(listed) != delivered:
+        ctx.violation('not-recorded-after-write-fault', '%d messages arrived (the write of line %d failed): connections recorded %d, `list *` shows %d' % (
+            delivered, fail_at, per, len(listed)), case)
+    elif state['fired']:
+        ctx.sig(['write-fault', h64(lines), fail_at])
+
+
 def run(ctx, spec):
     env.setup()
     cands = wlxml.shipped(env.REPO)
     for i in range(spec['n']):
         run_one(ctx, ctx.rng, cands, spec)
+        if i % 4 == 0:
+            run_write_fault(ctx, ctx.rng, cands, spec)
         if i % 3 == 0:
             run_late(ctx, ctx.rng, cands, spec)
         if ctx.out_of_time():
